@@ -6,7 +6,7 @@ from fractions import Fraction
 from typing import Dict, List, Set
 
 from .. import poly
-from ..absint import BoolV, DictV, NoneV, Num, Obj, Opaque, SeqV, State, mk_cmp, show_cond
+from ..absint import BoolV, DictV, NoneV, Num, Obj, Opaque, SeqV, State, c_not, mk_cmp, show_cond
 from ..analysis_scope import IDX, RAW, AnalysisInterp, analyse_function, analysis_universe
 from ..core import Finding, Result, finding, norm_construct, register
 from ..heap import HeapInterp
@@ -27,17 +27,40 @@ def canon_bv(x):
     return poly.subst(x, mp) if mp else x
 
 
-def site_cond(s):
+def _orient(c, facts):
+    """a scan that visits its window newest-first and one that visits it oldest-first compare the same positions: re-index every bound
+    variable that runs against the list order (negative coefficient in a reading position) by o -> count-1-o"""
+    if not isinstance(c, tuple):
+        return c
+    bounds = {f[1]: f[2] for f in facts if isinstance(f, tuple) and f and f[0] == "bound"}
+    mp = {}
+    for a in poly.all_atoms(c[2]) if isinstance(c[2], Frac) else []:
+        if a[0] == "rd" and isinstance(a[2], Frac):
+            v = poly.linear_view(a[2])
+            if v is None:
+                continue
+            for var, coef in v[0].items():
+                if var[0] == "bv" and var in bounds and coef < 0 and var not in mp:
+                    mp[var] = bounds[var] - ONE - Frac.atom(var)
+    if not mp:
+        return c
+    return (c[0], c[1], poly.subst(c[2], mp)) + tuple(c[3:])
+
+
+def site_cond(s, orient=False):
     c = mk_cmp(s.data["op"], s.data["lhs"], s.data["rhs"])
+    if orient:
+        c = _orient(c, s.facts)
     return canon_bv(c) if isinstance(c, tuple) else c
 
 
-def reading_conds(fa) -> Set:
+def reading_conds(fa, orient=False) -> Set:
+    """orient=True only for predicates that quantify over the whole window (the scan order is irrelevant for 'every previous reading ...')"""
     out = set()
     for s in fa.sites("compare"):
         fr = (s.data["lhs"], s.data["rhs"])
         if any(a[0] in ("rd", "carried", "sum", "lenf", "red") for f in fr for a in poly.all_atoms(f) | f.atoms()):
-            c = site_cond(s)
+            c = site_cond(s, orient)
             if isinstance(c, tuple):
                 out.add(c)
     return out
@@ -103,7 +126,7 @@ def check_movement(res: Result, repo):
     # rising / falling / mean_*: window excludes the current candle, strict comparison against the latest reading
     for name, op in (("rising", ">="), ("falling", "<=")):
         fa = fa_of(name)
-        conds = reading_conds(fa)
+        conds = reading_conds(fa, orient=True)
         # `reading >= latest -> False`  (so True requires every previous reading strictly below / above the latest)
         ok = False
         for c in conds:
@@ -112,6 +135,17 @@ def check_movement(res: Result, repo):
                     if c == mk_cmp(op, rd(ind, win), rd(ind, latest_pos)):
                         ok = True
         extra = {c for c in conds if not any(c == mk_cmp(op, rd(ind, win), rd(ind, lp)) for lp in (RAW, IDX) for win in (BV + mk_fn("max", IDX - A("cfg", "length"), ZERO), mk_fn("max", IDX - A("cfg", "length"), ZERO)))}
+        # the unrolled first / last iteration of the same scan is an instance of the generic comparison, not an extra one
+        _lo = mk_fn("max", IDX - A("cfg", "length"), ZERO)
+        _count = IDX - _lo
+        inst = set()
+        for lp in (RAW, IDX):
+            g = mk_cmp(op, rd(ind, BV + _lo), rd(ind, lp))
+            if isinstance(g, tuple):
+                for k in (ZERO, _count - ONE):
+                    x = poly.subst(g, {B: k})
+                    inst.add(x if not isinstance(x, tuple) else (x[0], x[1], x[2]))
+        extra = {c for c in extra if c not in inst}
         if ok and not extra:
             res.ok(rule, {"function": name, "rejects when": f"previous {op} latest (strict {name})", "window": "[max(index-length,0), index) : current candle excluded"}, nontrivial=name)
         else:
@@ -255,12 +289,27 @@ def check_geometry(res: Result, repo):
     # shadows: guarded forms, equal to high - max(o,c) / min(o,c) - low for well-formed candles (case lemma)
     for name, when_pos, otherwise in (("shadow_upper", mk_fn("abs", h - c), mk_fn("abs", h - o)), ("shadow_lower", mk_fn("abs", l - o), mk_fn("abs", l - c))):
         m, paths = run(name)
-        ok = len(paths) == 2
+
+        def under(f: Frac, positive: bool) -> Frac:
+            """resolve max/min of (open, close) for a positive (open < close) resp. non-positive candle"""
+            mp = {}
+            for a in poly.all_atoms(f):
+                if a[0] == "fn" and a[1] in ("max", "min") and len(a) == 4 and {a[2], a[3]} == {o, c}:
+                    hi, lo = (c, o) if positive else (o, c)
+                    mp[a] = hi if a[1] == "max" else lo
+            return poly.subst(f, mp) if mp else f
+
+        ok = bool(paths)
         for p in paths:
-            is_pos = pos_c in p.state.facts
-            w = when_pos if is_pos else otherwise
-            if not (isinstance(p.ret, Num) and p.ret.f == w):
+            if not isinstance(p.ret, Num):
                 ok = False
+                continue
+            cases = [True] if pos_c in p.state.facts else [False] if c_not(pos_c) in p.state.facts else [True, False]
+            for is_pos in cases:
+                w = when_pos if is_pos else otherwise
+                got = under(p.ret.f, is_pos)
+                if not (got == w or got.same(w)):
+                    ok = False
         if ok:
             res.ok(rule, {"property": name, "positive candle": repr(when_pos), "otherwise": repr(otherwise), "lemma": "equals high - max(open, close) resp. min(open, close) - low for low <= open,close <= high"}, nontrivial=name)
         else:
